@@ -8,7 +8,7 @@ use crate::model::{F, MV};
 use proptest::prelude::*;
 use serde::{Deserialize, Serialize};
 
-pub const RULE: &str = "number lists of length 1..50 (small integers, fractions, negatives, duplicates, +-0, +-inf, magnitudes up to 1e308 and down to subnormals; no NaN) with two percentile ranks p1<=p2 in [0,100] (0, 50, 100 and random) and a permutation; every aggregate is evaluated as f(list), f(...list), f(x1, .., xn), with the arguments cut into several spreads with empty spreads before, between and after them (and f([x]) vs f(x)) and compared with Rust reference computations on the same doubles. Non-trivial = length >= 2 with at least two distinct elements; distinct by the list's bit patterns.";
+pub const RULE: &str = "number lists of length 1..50 (small integers, fractions, negatives, duplicates, +-0, +-inf, magnitudes up to 1e308 and down to subnormals, whole numbers around the 32- and 64-bit integer limits; no NaN) with two percentile ranks p1<=p2 in [0,100] (0, 50, 100 and random) and a permutation; every aggregate is evaluated as f(list), f(...list), f(x1, .., xn), with the arguments cut into several spreads with empty spreads before, between and after them (and f([x]) vs f(x)) and compared with Rust reference computations on the same doubles. Non-trivial = length >= 2 with at least two distinct elements; distinct by the list's bit patterns.";
 pub const ASSUMPTIONS: &[&str] = &[
     "sum / prod / avg are held to a rounding bound (n*eps*sum|x|, resp. relative n*eps) only where no partial result over- or underflows; otherwise only the result class is checked, because the order of operations then legitimately matters",
     "median of an even-length list must lie between the two middle order statistics (inclusive) and equal (a+b)/2, a/2+b/2 or a+(b-a)/2 computed in IEEE doubles; with an infinite middle value it is that infinity (NaN for -inf and +inf)",
@@ -357,6 +357,9 @@ pub fn strategy() -> BoxedStrategy<Case> {
             1 => prop::collection::vec(prop_oneof![(1u64..(1u64 << 52)).prop_map(f64::from_bits), Just(f64::MIN_POSITIVE), Just(-5e-324)], 1..9),
             // zeros of both signs among negatives and infinities (order-sensitive shortcuts)
             1 => prop::collection::vec(prop::sample::select(vec![0.0, -0.0, 5.0, -3.0, 7.0, f64::INFINITY, f64::NEG_INFINITY, 2.0]), 2..7),
+            // whole numbers around the 64-bit (and 32-bit) integer limits: sums and products of these
+            // are exact in doubles or round once - nothing wraps
+            1 => prop::collection::vec(prop::sample::select(vec![9e18, 9.2e18, 4.7e18, 2e17, -9e18, -4.7e18, 9223372036854775807.0, 4611686018427387904.0, 2147483647.0, 4294967296.0, -2147483648.0, 1e19, 3.0, -1.0]), 2..8),
             // many duplicates
             1 => (prop::collection::vec(elem(), 1..4), prop::collection::vec(any::<u16>(), 1..30)).prop_map(|(base, idx)| {
                 idx.iter().map(|i| base[crate::engine::pick_idx(*i, base.len())]).collect::<Vec<f64>>()
